@@ -376,7 +376,7 @@ pub fn check_doc_accessors(ctx: &mut Ctx, t: &Tree, rng: &mut Rng) {
 }
 
 pub fn run(ctx: &mut Ctx) {
-    let small = gen::enumerate_small(if ctx.miri { 2 } else { 4 });
+    let small = if ctx.miri { Vec::new() } else { gen::enumerate_small(4) };
     for (i, t) in small.iter().enumerate() {
         if i % ctx.nshards != ctx.shard {
             continue;
@@ -388,7 +388,7 @@ pub fn run(ctx: &mut Ctx) {
         check_doc_accessors(ctx, t, &mut rng);
     }
     ctx.exhaustive.insert("small_scope(<=4 nodes) x all listed accessor arguments".into(), !ctx.miri);
-    let n = ctx.budget(40_000, 1_500_000);
+    let n = if ctx.miri { ctx.miri_cases(3) } else { ctx.budget(400_000, 8_000_000) };
     for i in 0..n {
         if !ctx.next_case() {
             return;
